@@ -34,6 +34,13 @@ Proof. intros H. unfold u64. apply N.mod_small. exact H. Qed.
 Lemma two64_pos : 0 < two64.
 Proof. reflexivity. Qed.
 
+Lemma update_on_sync_spec g id : id + 1 < two64 -> update_on_sync g id = if g <=? id then id + 1 else g.
+Proof.
+  intros H. unfold update_on_sync, update_on_sync_gen.
+  assert (E : (id + 1 <? two64) = true) by lia. rewrite E, orb_true_r, andb_true_r.
+  destruct (g <=? id); [apply u64_small; exact H|reflexivity].
+Qed.
+
 (* ---------- membership helpers ---------- *)
 Lemma memb_In x l : memb x l = true <-> In x l.
 Proof.
@@ -150,12 +157,12 @@ Qed.
 Lemma room_tail_sync K g r t : room K g (r :: t) -> room K (update_on_sync g (r_id r)) t.
 Proof.
   intros H. pose proof (room_tail_same _ _ _ _ H) as [A B]. split; [|exact B].
-  destruct H as [_ F]. inversion F; subst. cbn [length] in *. unfold update_on_sync.
-  destruct (g <=? r_id r); [rewrite u64_small by lia; lia | exact A].
+  destruct H as [_ F]. inversion F; subst. cbn [length] in *. rewrite update_on_sync_spec by lia.
+  destruct (g <=? r_id r); [lia | exact A].
 Qed.
 
 Lemma update_on_sync_ge g id : id + 1 < two64 -> g <= update_on_sync g id /\ id < update_on_sync g id.
-Proof. intros H. unfold update_on_sync. destruct (N.leb_spec g id); [rewrite u64_small by lia|]; lia. Qed.
+Proof. intros H. rewrite update_on_sync_spec by exact H. destruct (N.leb_spec g id); lia. Qed.
 
 Lemma room_app K g l1 l2 : room K g (l1 ++ l2) -> room (N.of_nat (length l2) + K) g l1.
 Proof.
@@ -817,8 +824,8 @@ Proof.
     destruct (update_on_sync_ge s y Fy) as [U1 U2].
     split; [lia|]. split; [constructor; [lia|exact B]|].
     destruct C as [C|[x [I C]]].
-    + rewrite C. unfold update_on_sync. destruct (N.leb_spec s y).
-      * right. exists y. split; [left; reflexivity|]. apply u64_small. exact Fy.
+    + rewrite C. rewrite update_on_sync_spec by exact Fy. destruct (N.leb_spec s y).
+      * right. exists y. split; [left; reflexivity|reflexivity].
       * left. reflexivity.
     + right. exists x. split; [right; exact I|exact C].
 Qed.
